@@ -68,5 +68,17 @@ func H_C20_j2x_twice() {
 	copy(buf, second)
 	vAssert(same(ask(buf), core(second)), "j2x twice: and on the document that is in the buffer now")
 	vAssert(same(ask(buf), core(second)), "j2x twice: and again")
+	// three updates of byte-identical input: each result is that of its own call
+	doc := []byte("{\"o\":{\"id\":\"" + c1 + "\"}}")
+	u1, _ := JsonUpdateValsForPath(doc, "id:Z1", "o.id")
+	u2, _ := JsonUpdateValsForPath(doc, "id:Z2", "o.id")
+	u3, _ := JsonUpdateValsForPath(doc, "id:Z3", "o.nope")
+	w := func(nv, path string) string {
+		m, _ := NewMapJson(doc)
+		_, _ = m.UpdateValuesForPath(nv, path)
+		j, _ := m.Json()
+		return string(j)
+	}
+	vAssert(string(u1) == w("id:Z1", "o.id") && string(u2) == w("id:Z2", "o.id") && string(u3) == w("id:Z3", "o.nope"), "j2x twice: repeated updates of the same bytes each equal the core composition")
 	vCover("twice")
 }
